@@ -581,7 +581,7 @@ fn gen_packet_raw(rng: &mut Rng, sw: &Swarm, t: u8) -> Ast {
         }
         8 => {
             let n = if rng.chance(1, 400) && !tiny() { *rng.pick(&[255usize, 256, 257, 300]) } else { 1 + rng.small(5) };
-            let topics = (0..n)
+            let mut topics: Vec<(Bs, u8)> = (0..n)
                 .map(|_| {
                     let o = if v5 {
                         (rng.below(3) | (rng.below(2) << 2) | (rng.below(2) << 3) | (rng.below(3) << 4)) as u8
@@ -591,10 +591,27 @@ fn gen_packet_raw(rng: &mut Rng, sw: &Swarm, t: u8) -> Ast {
                     (gen_topic_filter(rng, sw), o)
                 })
                 .collect();
+            // the same filter named twice in one packet (adjacent or not), possibly with other options
+            if rng.chance(1, 8) {
+                let i = rng.usize_below(topics.len());
+                let mut dup = topics[i].clone();
+                if rng.bool() {
+                    dup.1 = rng.below(3) as u8;
+                }
+                let at = if rng.bool() { i + 1 } else { topics.len() };
+                topics.insert(at, dup);
+            }
             Ast::Subscribe { pid: gen_pid(rng), props: gen_props(rng, sw, 8), topics }
         }
         9 => {
-            let n = if rng.chance(1, 150) && !tiny() { *rng.pick(&[255usize, 256, 257, 1000]) } else { rng.small(6) };
+            let n = if rng.chance(1, 150) && !tiny() {
+                *rng.pick(&[255usize, 256, 257, 1000])
+            } else if rng.chance(1, 40) && !tiny() {
+                // code lists that put the remaining length on either side of 127/128
+                rng.urange(120, 131)
+            } else {
+                rng.small(6)
+            };
             let codes = (0..n)
                 .map(|_| if v5 { *rng.pick(spec::reason_codes(9)) } else { *rng.pick(&spec::V3_SUBACK_CODES) })
                 .collect();
@@ -602,12 +619,24 @@ fn gen_packet_raw(rng: &mut Rng, sw: &Swarm, t: u8) -> Ast {
         }
         10 => {
             let n = if rng.chance(1, 400) && !tiny() { *rng.pick(&[255usize, 256, 257, 300]) } else { 1 + rng.small(5) };
-            let topics = (0..n).map(|_| gen_topic_filter(rng, sw)).collect();
+            let mut topics: Vec<Bs> = (0..n).map(|_| gen_topic_filter(rng, sw)).collect();
+            if rng.chance(1, 8) {
+                let i = rng.usize_below(topics.len());
+                let dup = topics[i].clone();
+                let at = if rng.bool() { i + 1 } else { topics.len() };
+                topics.insert(at, dup);
+            }
             Ast::Unsubscribe { pid: gen_pid(rng), props: gen_props(rng, sw, 10), topics }
         }
         11 => {
             let codes = if v5 {
-                let n = if rng.chance(1, 150) && !tiny() { *rng.pick(&[255usize, 256, 257]) } else { rng.small(6) };
+                let n = if rng.chance(1, 150) && !tiny() {
+                    *rng.pick(&[255usize, 256, 257])
+                } else if rng.chance(1, 40) && !tiny() {
+                    rng.urange(118, 131)
+                } else {
+                    rng.small(6)
+                };
                 (0..n).map(|_| *rng.pick(spec::reason_codes(11))).collect()
             } else {
                 vec![]
